@@ -19,7 +19,7 @@ func runC01(ctx *Ctx) {
 		return
 	}
 	bound := 2
-	budget := 80 * time.Second
+	budget := 10 * time.Minute // (seconds on an idle machine; a busy one must not shrink the quick tier)
 	if ctx.Thorough {
 		bound = 3
 		budget = 14 * time.Minute
